@@ -966,7 +966,14 @@ def _check_noop_rule(f, c, sid):
                 u = cand
         if u is None:
             continue
-        if ph == 'sent5':
+        hs = _server_handshake(u['conn']) if ph == 'done:ok' else None
+        if ph == 'sent5' or (
+                hs and hs[0] and req.seq_arrive is not None and
+                hs[1] < req.seq_arrive):
+            # (issued after the client sent UPGRADE, and for a client that
+            # considers the upgrade done the moment it has: reaching the
+            # server after the server had read that UPGRADE; from there on
+            # the session is either still held or already on WebSocket)
             out.append(V('one-transport', '%s|message-on-poll-after-upgrade'
                          % f.impl,
                          'client %d: poll %d was issued after the client '
